@@ -1,4 +1,5 @@
 import BpProofs.SrcTieJsonMsg
+import BpProofs.SrcTieJsonMsgTyped
 import BpProofs.SrcTieJsonMsgLoad
 import BpProofs.Props.C04
 /-
@@ -112,12 +113,36 @@ theorem src_json_roundtrip (S : Schema) (E : Enums) (cs : KeyCase) (c : Nat) (sl
     rw [value_from_json_eq S E kd c _ _ _ _ _ (fun j hj => by rw [hloads] at hj; injection hj with hj; subst hj; exact hd),
       hloads, SrcTieFromDict.res_bind_ok, hi']; rfl
 
+/-- the value guard `vOkAt` of the writer tie holds of every message that is typed (`wellTyped'`, C04's judgement),
+    whose dicts have pairwise distinct keys at every level and whose Message instances nest at most `k` levels
+    deep (`kOkAt k m`, decidable: what a Python dict is, plus the depth bound) -/
+theorem src_value_guard_of_typed (S : Schema) (k : Nat) (m : Val) (hwt : wellTyped' S m = true) (hk : kOkAt k m = true) :
+    vOkAt S k m = true :=
+  vOkAt_of_typed S k m hwt hk
+
+/-- `src_json_roundtrip` with the value guard discharged by the typing judgement: what is left besides C04's own
+    hypotheses is the Python-dict invariant + depth bound `kOkAt` on `m` and the reader guard `jOkAt` on the dict -/
+theorem src_json_roundtrip_typed (S : Schema) (E : Enums) (cs : KeyCase) (c : Nat) (sl : List Val) (ow : Bool) (unk : Bytes)
+    (cur : List (Option Nat)) (k kd : Nat) (indent : JsonMsg.Indent)
+    (hjson : jsonOk S E cs = true) (hgroups : groupsOk S = true)
+    (hwt : wellTyped' S (.msg c sl ow unk cur) = true) (hsel : selOk S (.msg c sl ow unk cur) = true)
+    (hk : kOkAt k (.msg c sl ow unk cur) = true)
+    (hd : jOkAt S (kd + 1) (toDict S E cs false (.msg c sl ow unk cur)) = true) :
+    ∃ d text m',
+      Src.value_to_dict S E (k + 1) cs false (.msg c sl ow unk cur) = .ok d ∧
+      Src.value_to_json S E k (.msg c sl ow unk cur) indent false cs = .ok text ∧
+      Src.class_from_dict S E (kd + 1) c d = .ok m' ∧
+      Src.value_from_dict S E kd (fresh S c) d = .ok m' ∧
+      Src.value_from_json S E kd (fresh S c) text = .ok m' ∧
+      DEqv S (.msg c sl ow unk cur) m' ∧ dumpVal S m' = dumpVal S (.msg c sl ow unk cur) :=
+  src_json_roundtrip S E cs c sl ow unk cur k kd indent hjson hgroups hwt hsel (vOkAt_of_typed S k _ hwt hk) hd
+
 /-! non-vacuity: the guards hold of C04's own nested instance `m3` (recursive class, oneof, optional sub-message
     set to its default, repeated sub-messages, `map<string, Node>`) and of the flat instance `m1`; the translated
     whole method, run on closed inputs, returns the nested dict -/
 def Ssub2 : Schema := [{ fields := [{ name := "sub", num := 1, ty := .message, kind := .user 1 }] },
   { fields := [{ name := "x", num := 1, ty := .int32 }] }]
-example : vOkAt S3 4 m3 = true ∧ jOkAt S3 5 (toDict S3 [] .camel false m3) = true := by decide
+example : kOkAt 4 m3 = true ∧ vOkAt S3 4 m3 = true ∧ jOkAt S3 5 (toDict S3 [] .camel false m3) = true := by decide
 example : vOkAt S1 1 m1 = true ∧ jOkAt S1 2 (toDict S1 E1 .camel false m1) = true
     ∧ jOkAt S1 2 (toDict S1 E1 .snake false m1) = true := by decide
 example : Src.value_to_dict Ssub2 [] 2 .camel false (.msg 0 [.msg 1 [.int 7] true [] []] true [] [])
